@@ -7,6 +7,7 @@ def run(chk):
     fn, n = cc.strings(chk, chk.tier)
     cc.replay(chk, fn)   # includes panic, allocation envelope and time budget on the structured strings (header fields at their extremes)
     lines = cc.fuzz(chk, fn, 300 if thorough else 30)
+    cc.aggparam(chk)
     chk.exhaustive = False
     chk.explanation = (
         "Structured strings of C07 (every header field at its extremes: all-ones length prefixes and counts, unknown tags, truncations at every item boundary) plus "
